@@ -1,4 +1,5 @@
 import NflowsModel.Core.Driver
+import NflowsModel.Core.Dual
 import NflowsModel.Core.Ops.C01
 import NflowsModel.Core.Ops.C02
 import NflowsModel.Core.Ops.C03
@@ -29,6 +30,7 @@ def handlers : List (Req → Option Resp) :=
 def dispatchAll (r : Req) : Resp :=
   match handlers.findSome? (fun h => h r) with
   | some x => x
-  | none => if r.prec == "f32" then dispatchG float32X r else dispatchG floatX r
+  | none => if r.prec == "f32" then dispatchG float32X r
+            else if r.prec == "d64" then dispatchG (dualX floatX) r else dispatchG floatX r
 
 end NF
